@@ -39,6 +39,118 @@ def kernel_distance_matrix(m, X):
     return (diff ** p).sum(-1) ** (1.0 / p)
 
 
+def lower_median_offdiag(D):
+    n = int(D.shape[0])
+    off = D[~torch.eye(n, dtype=torch.bool)]
+    return float(torch.sort(off).values[(len(off) - 1) // 2])
+
+
+# how a caller may write the SAME base bandwidth (a number): the statement speaks of "the base bandwidth", not of its machine representation
+BASE_CARRIERS = [('python int', int), ('numpy int64', np.int64), ('python float', float), ('numpy int32', np.int32), ('numpy float32', np.float32),
+                 ('numpy float64', np.float64), ('numpy uint8', np.uint8), ('numpy int16', np.int16)]
+
+
+def base_carrier_regime(ck, xr, kernels):
+    """The configured base bandwidth written as an integer-typed / narrow-typed number (bandwidth=10, np.int64(5), np.float32(2), ...), on data whose unit
+    makes base x median fall below 1, near 1 and far above 1.  Oracles (statement level, float64 recomputation):
+      (a) stored bandwidth == float(base) x lower median of the pairwise kernel-norm distances of the transformed training points under the stored state,
+          relative tolerance 1e-9 (2e-6 memory-light kernel); for a floating carrier narrower than float64 the product may legitimately be rounded to the
+          carrier's precision, so its unit roundoff is added;
+      (b) refits on inputs rescaled by 1e-3 / 1e3 predict the same values."""
+    rng = np.random.default_rng(ck.seed + 191919)
+    T = lambda a: torch.tensor(a, dtype=torch.float64)
+    nconf = ck.n(16, 64)
+    for i in range(nconf):
+        kern, extra = kernels[i % 4]
+        cname, ctor = BASE_CARRIERS[i % len(BASE_CARRIERS)]
+        bval = [10, 1, 5, 2, 3, 7][(i // 2) % 6]
+        base = ctor(bval)
+        unit = [1.0, 1e-3, 1e3, 3e-2, 0.2][(i // 4) % 5]
+        diag = bool((i // 4) % 2); iters = [2, 0, 1, 3][(i + i // 4) % 4]; q = [1.0, 1.3, 0.8][(i // 8) % 3]
+        rb = (i % 7 != 6); early = bool((i // 3) % 2)
+        n = int(rng.integers(8, 16)); d = int(rng.integers(2, 4))
+        X = rng.standard_normal((n, d)) * unit; Y = rng.standard_normal((n, 1)); Xv = rng.standard_normal((6, d)) * unit; Yv = rng.standard_normal((6, 1))
+        Q = rng.standard_normal((5, d)) * unit
+        desc = dict(kind='base bandwidth carrier', i=i, kernel=kern, base=repr(base), base_type=cname, data_unit=unit, diag=diag, iters=iters, q=q,
+                    return_best_params=rb, early=early, n=n, d=d, seed=ck.seed)
+
+        def fit(c):
+            xr.seed_all(1970 + i + ck.seed)
+            m = xr.RealRFM(kernel=kern, iters=iters, bandwidth=ctor(bval), exponent=q, bandwidth_mode='adaptive', device='cpu', diag=diag, verbose=False,
+                           tuning_metric='mse', **extra)
+            with xr.quiet():
+                m.fit((T(X * c), T(Y)), (T(Xv * c), T(Yv)), iters=iters, reg=1e-2, verbose=False, early_stop_rfm=early, return_best_params=rb,
+                      early_stop_multiplier=1.05)
+            return m
+        try:
+            m = fit(1.0)
+        except Exception as e:
+            ck.violation(f'adaptive fit with base bandwidth {base!r} ({cname}) raised {e!r} on {desc}', dict(desc, X=X.tolist()), key='fit-raise-carrier'); continue
+        ck.count(f'base bandwidth given as {cname}'); ck.count(f'data unit {unit:g}')
+        med = lower_median_offdiag(kernel_distance_matrix(m, m.centers))
+        want = float(bval) * med
+        try:
+            got = float(m.kernel_obj.bandwidth)
+        except Exception as e:
+            ck.violation(f'stored bandwidth {m.kernel_obj.bandwidth!r} is not a number ({e!r}) on {desc}', dict(desc, X=X.tolist()), key='bandwidth-not-a-number'); continue
+        u_carrier = float(np.finfo(ctor).eps) if (isinstance(base, np.floating) and np.finfo(ctor).bits < 64) else 0.0
+        reltol = (2e-6 if kern == 'l2_high_dim' else 1e-9) + u_carrier
+        ck.case(dict(desc, bandwidth=got, expected=want), nontrivial=True, sample=(i == 1))
+        if not (abs(got - want) <= reltol * want):
+            ck.violation(f'stored bandwidth {got!r} != base bandwidth {base!r} ({cname}) x lower median {med!r} of the pairwise distances of the transformed training '
+                         f'points (= {want!r}; relative error {abs(got - want) / want:.3g} > {reltol:.3g}) for the returned iterate (best_iter={m.best_iter}) on {desc}',
+                         dict(desc, got=got, want=want, median=med, X=X.tolist(), Y=Y.tolist(), Xv=Xv.tolist(), Yv=Yv.tolist()),
+                         key=json.dumps(dict(site='bandwidth', carrier=True)))
+        # (b) scale invariance of the predictions, every other configuration (all carriers and kernels are visited: 8 carriers x 4 kernels, stride 2 over i // 8)
+        if (i // 8 + i) % 2:
+            continue
+        try:
+            with xr.quiet():
+                P = m.predict(T(Q)).double().numpy()
+        except Exception as e:
+            ck.violation(f'predict after an adaptive fit with base bandwidth {base!r} ({cname}) raised {e!r} (stored bandwidth {got!r}) on {desc}',
+                         dict(desc, got=got, want=want, X=X.tolist(), Q=Q.tolist()), key=json.dumps(dict(site='predict-raise', carrier=True))); continue
+        ptol = (2e-4 if kern == 'l2_high_dim' else 2e-6) + 50 * u_carrier
+        for c in (1e-3, 1e3):
+            try:
+                mc = fit(c)
+                with xr.quiet():
+                    Pc = mc.predict(T(Q * c)).double().numpy()
+            except Exception as ex:
+                ck.violation(f'fit/predict on inputs rescaled by {c} raised {ex!r} with base bandwidth {base!r} ({cname}) on {desc}', dict(desc, c=c, X=X.tolist(), Q=Q.tolist()),
+                             key=json.dumps(dict(site='scaled-fit-raise', carrier=True))); continue
+            dev = float(np.max(np.abs(Pc - P)))
+            ck.case(dict(desc, c=c, dev=dev), nontrivial=True)
+            if not (dev <= ptol * (1 + float(np.abs(P).max()))):
+                ck.violation(f'predictions change by {dev:.3g} when all inputs are rescaled by {c} (base bandwidth {base!r} ({cname}); stored bandwidth {got!r} -> '
+                             f'{float(mc.kernel_obj.bandwidth)!r}, {c} x {got!r} = {c * got!r}) on {desc}', dict(desc, c=c, dev=dev, X=X.tolist(), Q=Q.tolist()),
+                             key=json.dumps(dict(site='scale-invariance', carrier=True)))
+    # the same through the tree-level interface: rfm_params {'model': {'bandwidth': <int>, 'bandwidth_mode': 'adaptive'}} (single leaf, float32 pipeline)
+    for i in range(ck.n(4, 12)):
+        kern = ['l2', 'l1', 'lpq', 'l2_high_dim'][i % 4]
+        cname, ctor = BASE_CARRIERS[[0, 1, 3, 2][i % 4]]
+        bval = [5, 10, 2][i % 3]; unit = [1.0, 1e-2, 1e2][(i // 2) % 3]; itl = [1, 0, 2][i % 3]
+        nl = int(rng.integers(30, 60)); dl = 3
+        Xl = (rng.standard_normal((nl, dl)) * unit).astype(np.float32); yl = rng.standard_normal((nl, 1)).astype(np.float32)
+        Xvl = (rng.standard_normal((12, dl)) * unit).astype(np.float32); yvl = rng.standard_normal((12, 1)).astype(np.float32)
+        pl = xr.default_rfm_params(kernel=kern, iters=itl, reg=1e-2, bandwidth=ctor(bval), bandwidth_mode='adaptive', diag=bool(i % 2), **(dict(norm_p=1.5) if kern == 'lpq' else {}))
+        descl = dict(kind='base bandwidth carrier, rfm_params of xRFM', i=i, kernel=kern, base=repr(ctor(bval)), base_type=cname, data_unit=unit, n=nl, iters=itl, diag=bool(i % 2), seed=ck.seed)
+        xr.seed_all(1980 + i + ck.seed)
+        ml = xr.xRFM(rfm_params=pl, max_leaf_size=10_000, verbose=False, use_temperature_tuning=False)
+        try:
+            with xr.quiet():
+                ml.fit(torch.tensor(Xl), torch.tensor(yl), torch.tensor(Xvl), torch.tensor(yvl))
+        except Exception as e:
+            ck.violation(f'xRFM fit with rfm_params bandwidth {ctor(bval)!r} ({cname}), adaptive mode, raised {e!r} on {descl}', dict(descl, X=Xl.tolist()), key='fit-raise-carrier'); continue
+        lm = ml.trees[0]['model']
+        medl = lower_median_offdiag(kernel_distance_matrix(lm, lm.centers)); gotl = float(lm.kernel_obj.bandwidth); wantl = float(bval) * medl
+        ck.case(dict(descl, bandwidth=gotl, expected=wantl), nontrivial=True); ck.count(f'rfm_params base bandwidth given as {cname}')
+        if not (abs(gotl - wantl) <= 3e-6 * wantl):
+            ck.violation(f'stored bandwidth {gotl!r} != base bandwidth {ctor(bval)!r} ({cname}, given in rfm_params) x lower median {medl!r} of the pairwise distances of the '
+                         f'leaf\'s training points (= {wantl!r}; relative error {abs(gotl - wantl) / wantl:.3g}) on {descl}',
+                         dict(descl, got=gotl, want=wantl, X=Xl.tolist(), y=yl.tolist()), key=json.dumps(dict(site='bandwidth', carrier=True, via='xRFM')))
+
+
 def run(ck):
     from harness import xr
     ck.rule = ('adaptive-bandwidth leaf fits (l2, l2_high_dim, l1, lpq; exponents; diagonal/full; iteration budgets 0-4; early stop / best-restore on/off): '
@@ -270,6 +382,7 @@ def run(ck):
         if abs(gotl - basel * medl) > 3e-6 * max(1.0, basel * medl):
             ck.violation(f'stored bandwidth {gotl!r} != base bandwidth {basel} x lower median {medl!r} of the pairwise distances of the leaf\'s training points (= {basel * medl!r}) '
                          f'with the logistic leaf solver on {descl}', dict(descl, got=gotl, want=basel * medl), key=json.dumps(dict(site='bandwidth', solver='log_reg')))
+    base_carrier_regime(ck, xr, kernels)
     res = ck.run_bool_cases('median', HEADER, cases, shard=40)
     bad = [meta[k] for k, v in res.items() if v is not True]
     ck.obligation(f'correspondence: stored bandwidth / base is a lower median of the recomputed distances for {len(cases)} fits (Coq lower_median_okb)',
